@@ -149,6 +149,9 @@ pub enum ThreadKind {
     /// child lives this thread is blocked uninterruptibly (state D): it cannot stop, so a tracer
     /// that attached to it waits that long for the attach stop.
     VforkWaiter { ms: u32 },
+    /// gives itself a PRIVATE descriptor table (unshare(CLONE_FILES)), then closes descriptor 0 and
+    /// opens /dev/full in it: `/proc/<tid>/fd` of this thread differs from `/proc/<pid>/fd`
+    PrivateFdTable,
 }
 
 #[derive(Serialize, Deserialize, Clone, Debug)]
